@@ -80,6 +80,7 @@ def to_smt2(hyps, goal, rules=None):
 
 
 _G = {}
+_SEM = [None]        # a semaphore shared by several verifying processes: bounds the number of solver children across all of them
 
 
 def _work(i):
@@ -100,6 +101,8 @@ def _discharge_forked(obligations, rules=None, seed=0, jobs=None, extra_axioms=N
     import multiprocessing as mp
     todo = []
     for i, ob in enumerate(obligations):
+        if ob.result is not None:
+            continue            # decided already (in the child process that generated it)
         if ob.syntactic is not None:
             ok, why = ob.syntactic
             ob.result = {"verdict": "unsat" if ok else "sat", "time": 0.0, "model": why, "backend": "syntactic"}
@@ -143,6 +146,8 @@ def _run_children(todo, jobs, hard_limit):
     results = []
     while pending or running:
         while pending and len(running) < jobs:
+            if _SEM[0] is not None and not _SEM[0].acquire(block=not running, timeout=None if not running else 0):
+                break
             i = pending.pop()
             pr, pw = ctx.Pipe(duplex=False)
             p = ctx.Process(target=_child, args=(i, pw), daemon=True)
@@ -158,6 +163,8 @@ def _run_children(todo, jobs, hard_limit):
                 results.append((i, "error", time.time() - t0, "solver process died", "z3"))
             c.close()
             p.join(timeout=5)
+            if _SEM[0] is not None:
+                _SEM[0].release()
         now = time.time()
         for c, (p, i, t0) in list(running.items()):
             if now - t0 > hard_limit:
@@ -165,6 +172,8 @@ def _run_children(todo, jobs, hard_limit):
                 p.join(timeout=5)
                 c.close()
                 del running[c]
+                if _SEM[0] is not None:
+                    _SEM[0].release()
                 results.append((i, "unknown", now - t0, "hard wall-clock limit: solver ignored its timeout", "z3"))
     return results
 
